@@ -3,25 +3,17 @@
     from helpers.rs (coq/gen/Helpers.v); memfrob and strcmp are modelled on byte lists (tie B). *)
 From Coq Require Import ZArith Lia Bool List.
 From RbpfV Require Import MachInt BitLemmas ListLemmas ArmBase ArmVals.
+From RbpfV Require Export HelperSpec.
 From RbpfV.gen Require Import Helpers.
 Import ListNotations.
 Open Scope Z_scope.
 Ltac Zify.zify_post_hook ::= Z.div_mod_to_equations.
 
 (** ** gather_bytes *)
-Definition shl64 (a n : Z) : Z := (a * 2 ^ n) mod 2 ^ 64.
-Definition gather_spec (a1 a2 a3 a4 a5 : Z) : Z :=
-  Z.lor (Z.lor (Z.lor (Z.lor (shl64 a1 32) (shl64 a2 24)) (shl64 a3 16)) (shl64 a4 8)) a5.
 Lemma gather_bytes_ok a1 a2 a3 a4 a5 : gen_gather_bytes a1 a2 a3 a4 a5 = Ok (gather_spec a1 a2 a3 a4 a5).
 Proof. reflexivity. Qed.
 
 (** ** bpf_trace_printf: number of hexadecimal digits of a 64-bit value *)
-Fixpoint hexlen_fuel (fuel : nat) (x : Z) : Z :=
-  match fuel with
-  | O => 1
-  | S f => if x <? 16 then 1 else 1 + hexlen_fuel f (x / 16)
-  end.
-Definition hexlen (x : Z) : Z := hexlen_fuel 16 x.     (* digits of `{:x}` for 0 <= x < 2^64 *)
 
 Lemma hexlen_fuel_S f x : hexlen_fuel (S f) x = if x <? 16 then 1 else 1 + hexlen_fuel f (x / 16).
 Proof. reflexivity. Qed.
@@ -93,7 +85,6 @@ Proof.
 Qed.
 
 (** ** memfrob and strcmp on byte strings *)
-Definition memfrob_bytes (l : list Z) : list Z := map (fun b => Z.lxor b 42) l.
 Lemma lxor_42_invol b : Z.lxor (Z.lxor b 42) 42 = b.
 Proof. rewrite Z.lxor_assoc, Z.lxor_nilpotent, Z.lxor_0_r. reflexivity. Qed.
 Lemma memfrob_involutive l : memfrob_bytes (memfrob_bytes l) = l.
@@ -106,15 +97,6 @@ Proof.
   apply (lxor_range b 42 8); lia.
 Qed.
 
-(** C strings: bytes up to (not including) the first NUL; [strcmp_model] walks both as the helper does *)
-Fixpoint strcmp_model (a b : list Z) : Z :=
-  match a, b with
-  | x :: a', y :: b' => if (x =? y) && negb (x =? 0) then strcmp_model a' b' else Z.abs (x - y)
-  | x :: _, [] => Z.abs x
-  | [], y :: _ => Z.abs y
-  | [], [] => 0
-  end.
-Fixpoint cstr (l : list Z) : list Z := match l with [] => [] | x :: r => if x =? 0 then [] else x :: cstr r end.
 
 (** both buffers NUL-terminated: the result is 0 exactly when the strings are equal *)
 Lemma strcmp_zero_iff a b : In 0 a -> In 0 b -> Forall (fun x => 0 <= x) a -> Forall (fun x => 0 <= x) b ->
